@@ -548,8 +548,15 @@ fn parse_dist_header_with_cache<'a>(
     let flags_len = (num_atom_cache_refs as usize) / 2 + 1;
     let (mut input, flags) = take(flags_len)(input)?;
 
+    // The LongAtoms bit lives in the half byte after the last atom cache reference: the low
+    // nibble of the last flag byte for an even number of references, the high nibble otherwise.
     let long_atoms_flag_byte = flags[flags_len - 1];
-    let long_atoms = (long_atoms_flag_byte & 0x01) != 0;
+    let long_atoms_nibble = if num_atom_cache_refs % 2 == 0 {
+        long_atoms_flag_byte & 0x0F
+    } else {
+        (long_atoms_flag_byte >> 4) & 0x0F
+    };
+    let long_atoms = (long_atoms_nibble & 0x01) != 0;
 
     for i in 0..num_atom_cache_refs {
         let (new_input, internal_segment_index) = be_u8(input)?;
